@@ -74,12 +74,44 @@ func init() {
 	add("C01", 1, 10)
 	add("C05", 1, 10)
 	add("C06", 2, 10)
+	// stale wake-up tokens: a whole window is returned while the sender is idle, the next message
+	// uses it up exactly without ever waiting, and the message after that starts at window zero with
+	// a token of the earlier update still pending
+	stale := func(id string, reps, thoroughReps int) {
+		prev := listers[id]
+		listers[id] = func(tier string, seed int64) []Case {
+			out := prev(tier, seed)
+			rng := rand.New(rand.NewSource(seed*197 + 65537))
+			n := reps
+			if tier == "thorough" {
+				n = thoroughReps
+			}
+			for r := 0; r < n; r++ {
+				for _, dir := range allDirs {
+					for _, side := range []string{"request", "response"} {
+						for fi := range fcFills {
+							out = append(out, Case{Family: "fcboundary", Seed: rng.Int63(), Cfg: WorldCfg{Dir: dir}, S: map[string]string{"side": side, "pattern": "stale-token"},
+								P: map[string]int{"fill": fi, "next": []int{1, 100, 16384, 20000, 65536}[rng.Intn(5)], "rounds": 1 + rng.Intn(3)}})
+						}
+					}
+				}
+			}
+			return out
+		}
+	}
+	stale("C13", 1, 8)
+	stale("C05", 1, 8)
+	stale("C01", 1, 8)
 }
 
 func famFCBoundary(w *World, c *Case, rng *rand.Rand) {
 	if err := w.Open(nil); err != nil {
 		w.Violate("C11", "open-failed", "opening the tunnel failed in configuration %s: %v", w.Cfg, err)
 		w.Finish()
+		return
+	}
+	if c.s("pattern", "") == "stale-token" {
+		famFCStaleToken(w, c, rng)
 		return
 	}
 	side := c.s("side", "request")
@@ -123,5 +155,68 @@ func famFCBoundary(w *World, c *Case, rng *rand.Rand) {
 	w.CheckOutcome()
 	w.CheckTables(w.TCh, 0, 0, true, "after fcboundary")
 	w.Stat("fcboundary_runs", 1)
+	w.Finish()
+}
+
+func famFCStaleToken(w *World, c *Case, rng *rand.Rand) {
+	side := c.s("side", "request")
+	fill := fcFills[c.p("fill", 0)%len(fcFills)]
+	rounds := c.p("rounds", 1)
+	w.SigExtra = fmt.Sprintf("stale/%s/%v/next%d/r%d", side, fill, c.p("next", 100), rounds)
+	fillOps := func() []Op {
+		var ops []Op
+		for _, t := range fill {
+			p := payloadFor(t)
+			if p < 0 {
+				p = t
+			}
+			ops = append(ops, Op{K: "send", N: p})
+		}
+		return ops
+	}
+	// sender: [ a whole window; wait until the consumer has read it and the credit has arrived ] x rounds,
+	// then one more whole window (no wait needed: the window is open, the tokens of the earlier
+	// updates are still pending), then a further message that has to wait at window zero
+	var snd []Op
+	for r := 0; r < rounds; r++ {
+		snd = append(snd, fillOps()...)
+		snd = append(snd, Op{K: "sync", Name: fmt.Sprintf("consumed%d", r)}, Op{K: "sleep", D: time.Millisecond})
+	}
+	snd = append(snd, fillOps()...)
+	next := c.p("next", 100)
+	if p := payloadFor(next); p >= 0 {
+		next = p
+	}
+	snd = append(snd, Op{K: "send", N: next}, Op{K: "send", N: 7})
+	// consumer: reads exactly the windows of the first rounds (announcing each), then waits for "go"
+	var rcv []Op
+	for r := 0; r < rounds; r++ {
+		for range fill {
+			rcv = append(rcv, Op{K: "recv"})
+		}
+		rcv = append(rcv, Op{K: "signal", Name: fmt.Sprintf("consumed%d", r)})
+	}
+	rcv = append(rcv, Op{K: "sync", Name: "go"}, Op{K: "recvall"})
+	var s *RPCSpec
+	if side == "request" {
+		cl := append([]Op{{K: "open"}}, snd...)
+		cl = append(cl, Op{K: "close"}, Op{K: "recvall"})
+		s = &RPCSpec{ID: "st", Method: "ClientStream", Client: cl, Handler: append(rcv, Op{K: "send", N: 3}, Op{K: "ret"})}
+	} else {
+		hd := append([]Op{{K: "recv"}}, snd...)
+		hd = append(hd, Op{K: "ret"})
+		s = &RPCSpec{ID: "st", Method: "ServerStream", Client: append([]Op{{K: "open"}, {K: "send", N: 3}, {K: "close"}}, rcv...), Handler: hd}
+	}
+	w.Env.StartRPC(w.RootCtx, w.Ch, s)
+	w.Advance(time.Second)
+	w.Env.Signal("go")
+	w.Advance(time.Minute)
+	for _, r := range w.Env.Log.OpenOps() {
+		w.Violate("C05", "op-stuck-in-clean-run", "fcboundary %s: %s %s[%d] still blocked a minute after the consumer resumed", w.SigExtra, r.Side, r.K, r.Idx)
+	}
+	w.CheckDelivery()
+	w.CheckOutcome()
+	w.CheckTables(w.TCh, 0, 0, true, "after fcboundary (stale token)")
+	w.Stat("fcboundary_stale_token_runs", 1)
 	w.Finish()
 }
